@@ -31,8 +31,8 @@ import (
 func init() {
 	Register(&Prop{
 		ID:   "C28",
-		Expl: "Decides (R1) in SyncLogic.MergeCapabilities every return of the stored capability is dominated by the strict test remote.version < local.version (operands resolved through the getters to the version fields of the two parameters) or by remote == nil, every return of the received capability by the complementary edge or local == nil; in storeCapabilityMessage the stored capability is argument 1 and the parsed message argument 2, the merge result is what UpdateCapability receives and every nil-error return after the update is dominated by the success edge of SavePeerState on the same peer. (R2) by symbolic evaluation of toPeer(peerToRecord(p)) and ToCapability(SnapshotFromCapability(c)): every leaf field of Peer / PeerCapability (except observedAt) of the reloaded value is computed from the same leaf of the original and from no other leaf; peerRecord and PeerCapabilitySnapshot have exported fields with pairwise distinct JSON names of JSON-representable types; the two asset symbol tables are mutually inverse and normalised. (R3) every bbolt delete in package peersync is dominated (in its function or in all its callers) by IsExpired(timeout)==true on the peer materialised from the cursor value and by shouldKeepPeer(key, keep)==false; shouldKeepPeer answers with the membership of the key in the keep set; the only production caller of the cleanup passes the connected-peer set and is dominated by the success edge of listing the peers; connectedPeers never returns a nil error when listing failed, and every production implementation behind Lightning.ListPeers (followed through in-module interface calls to the call the peer list originates from) returns a nil error only on the success edge of that call — a function without an error result on that chain cannot report the failure; the keep-nothing wrapper CleanupExpired and RemovePeerState have no production callers. (R4) every capability send whose peer comes from the connected-peer listing is dominated by allowRequest(thatPeer, now, force)==true; under the assumption seen && !force && now-last < requestInterval allowRequest can only return false, and every true return first records now for the peer. (R5) HasCompatiblePeer returns only false or the value-equality of the stored capability's version with PeerSync.version, whose only production writer stores NewVersion(PEERSWAP_PROTOCOL_VERSION). (R6) over the VTA call graph: every call edge on every chain from a production function that receives from a channel of CustomMessage (the subscription loop) to Store.SavePeerState is a synchronous call — a `go` statement on such a chain hands messages of one peer to concurrent goroutines, so the read-merge-save of an older poll can complete after that of a newer one.",
-		NotD: "Everything that depends on clocks, message order on the wire and connectivity; whether the other goroutine that rewrites peer records (the poll loop: GetAllPeerStates … SavePeerState per peer without a lock shared with the message handler) can overwrite a capability stored in between (reported as a note by R6); that polls arrive, expiry timing, the pruning of request times on reconnect, pacing of polls to known peers (ShouldPoll) and the unthrottled RequestPoll/initial sync path; value-level identity of the converters beyond leaf-to-leaf dependence (range check of rates, omitempty: an all-zero capability reloads as nil, an empty status reloads as unknown; observedAt is replaced by LastSeen); bbolt semantics (including Put during cursor iteration); the suspicious-peer early exits.",
+		Expl: "Decides (R1) in SyncLogic.MergeCapabilities every return of the stored capability is dominated by the strict test remote.version < local.version (operands resolved through the getters to the version fields of the two parameters) or by remote == nil, every return of the received capability by the complementary edge or local == nil; in storeCapabilityMessage the stored capability is argument 1 and the parsed message argument 2, the merge result is what UpdateCapability receives and every nil-error return after the update is dominated by the success edge of SavePeerState on the same peer. (R2) by symbolic evaluation of toPeer(peerToRecord(p)) and ToCapability(SnapshotFromCapability(c)): every leaf field of Peer / PeerCapability (except observedAt) of the reloaded value is computed from the same leaf of the original and from no other leaf; peerRecord and PeerCapabilitySnapshot have exported fields with pairwise distinct JSON names of JSON-representable types; the two asset symbol tables are mutually inverse and normalised. (R3) every bbolt delete in package peersync is dominated (in its function or in all its callers) by IsExpired(timeout)==true on the peer materialised from the cursor value and by shouldKeepPeer(key, keep)==false; shouldKeepPeer answers with the membership of the key in the keep set; the only production caller of the cleanup passes the connected-peer set and is dominated by the success edge of listing the peers; connectedPeers never returns a nil error when listing failed, and every production implementation behind Lightning.ListPeers (followed through in-module interface calls to the call the peer list originates from) returns a nil error only on the success edge of that call — a function without an error result on that chain cannot report the failure; the keep-nothing wrapper CleanupExpired and RemovePeerState have no production callers. (R4) every capability send whose peer comes from the connected-peer listing is dominated by allowRequest(thatPeer, now, force)==true; under the assumption seen && !force && now-last < requestInterval allowRequest can only return false, and every true return first records now for the peer. (R5) HasCompatiblePeer returns only false or the value-equality of the stored capability's version with PeerSync.version, whose only production writer stores NewVersion(PEERSWAP_PROTOCOL_VERSION). (R6) over the VTA call graph: every call edge on every chain from a production function that receives from a channel of CustomMessage (the subscription loop) to Store.SavePeerState is a synchronous call — a `go` statement on such a chain hands messages of one peer to concurrent goroutines, so the read-merge-save of an older poll can complete after that of a newer one. (R7) every bbolt Bucket.Put of a peer record in package peersync is classified: inside a (*bolt.DB).Update transaction that also reads the bucket and whose starting function receives no Peer from its caller it is a single-transaction read-modify-write (nothing can interleave); when the bytes written are supplied by the function that starts the transaction, that function is a write-back primitive, and at every production call site of it (following a Peer parameter up to two callers) the record argument is traced to the store load it comes from (a call that reaches (*bolt.DB).View and yields Peers): no call that blocks on the outside — a call through a capabilitySender value, a method of the Lightning interface, or an in-module function that reaches one — may lie on a path from that load to the write-back, because a capability stored by another goroutine in between would be replaced by the stale copy.",
+		NotD: "Everything that depends on clocks, message order on the wire and connectivity; whether the other goroutine that rewrites peer records (the poll loop: GetAllPeerStates … SavePeerState per peer without a lock shared with the message handler) can overwrite a capability stored in between (R7 decides the blocking-call case; interleavings without a blocking call between load and write-back, e.g. two handlers, are excluded by R6's single synchronous consumer and otherwise not decided); that polls arrive, expiry timing, the pruning of request times on reconnect, pacing of polls to known peers (ShouldPoll) and the unthrottled RequestPoll/initial sync path; value-level identity of the converters beyond leaf-to-leaf dependence (range check of rates, omitempty: an all-zero capability reloads as nil, an empty status reloads as unknown; observedAt is replaced by LastSeen); bbolt semantics (including Put during cursor iteration); the suspicious-peer early exits.",
 		Run:  runC28,
 	})
 }
@@ -43,6 +43,7 @@ func runC28(c *an.Check) {
 	c.Rule("C28.R3", "deletion requires expired && !connected; cleanup is only run with the connected set and not when listing peers failed")
 	c.Rule("C28.R4", "requests to unknown connected peers are dominated by allowRequest; allowRequest refuses within the interval unless forced and records the attempt")
 	c.Rule("C28.R5", "HasCompatiblePeer is equality of the stored version with PEERSWAP_PROTOCOL_VERSION")
+	c.Rule("C28.R7", "no stale write-back: a peer record loaded from the store is not written back after a blocking outside call (capability send, Lightning RPC); record updates that must not lose concurrent writes are read-modify-writes inside one store write transaction")
 	c.Rule("C28.R6", "peer messages are handled synchronously in arrival order: no `go` statement on any call chain from the loop that receives CustomMessages to Store.SavePeerState")
 	e := &c28Env{c: c, w: c.W}
 	e.r1()
@@ -51,6 +52,7 @@ func runC28(c *an.Check) {
 	e.r4()
 	e.r5()
 	e.r6()
+	e.r7()
 }
 
 type c28Env struct {
@@ -2915,5 +2917,372 @@ func (e *c28Env) r6() {
 	sort.Strings(roots)
 	if len(roots) > 1 {
 		c.Note("C28.R6", "goroutines that write peer records", w.Pos(save.Pos()), "SavePeerState is reached from "+strings.Join(roots, "; ")+" and no lock spans a read…save sequence: a goroutine that loaded a peer record earlier (the poll loop loads all records, then sends and saves them one by one) writes its stale copy over a capability the message handler stored in between — not decided by this rule")
+	}
+}
+
+// =====================================================================================
+// R7
+// =====================================================================================
+
+// c28Blocking: the call blocks on the outside world (a capability send or a
+// Lightning RPC), directly or through in-module callees.
+func (e *c28Env) blocking(ci ssa.CallInstruction) string {
+	w := e.w
+	direct := func(inf an.CallInfo, cc *ssa.CallCommon) string {
+		if strings.HasPrefix(inf.Name, "iface:peersync.Lightning.") {
+			return inf.Name
+		}
+		if inf.Static == nil && !cc.IsInvoke() {
+			// dynamic call through a func value: the capability sender
+			if n, ok := cc.Value.Type().(*types.Named); ok && n.Obj().Name() == "capabilitySender" {
+				return inf.Name
+			}
+		}
+		return ""
+	}
+	inf := w.Info(ci)
+	if inf.IsGo {
+		return ""
+	}
+	if d := direct(inf, ci.Common()); d != "" {
+		return d
+	}
+	if inf.Static != nil && w.InModule(inf.Static) && inf.Static.Blocks != nil {
+		for _, ef := range w.Summary(inf.Static).Effects {
+			if strings.HasPrefix(ef.Name, "go:") || ef.Info.Instr == nil {
+				continue
+			}
+			if d := direct(ef.Info, ef.Info.Instr.Common()); d != "" {
+				return inf.Name + " -> " + d
+			}
+		}
+	}
+	return ""
+}
+
+// c28After: instruction b can execute after instruction a.
+func c28After(a, b ssa.Instruction) bool {
+	if a.Parent() != b.Parent() {
+		return false
+	}
+	if a.Block() == b.Block() && an.InstrIndex(a) < an.InstrIndex(b) {
+		return true
+	}
+	return an.ReachBlocks(a.Block().Succs, nil, nil)[b.Block()]
+}
+
+func c28HoldsPeer(t types.Type) bool {
+	for i := 0; i < 3; i++ {
+		switch u := t.(type) {
+		case *types.Pointer:
+			t = u.Elem()
+			continue
+		case *types.Slice:
+			t = u.Elem()
+			continue
+		}
+		break
+	}
+	n, ok := t.(*types.Named)
+	return ok && n.Obj().Name() == "Peer" && n.Obj().Pkg() != nil && strings.HasSuffix(n.Obj().Pkg().Path(), "/peersync")
+}
+
+func (e *c28Env) r7() {
+	c, w := e.c, e.w
+	const updName = "func:(*go.etcd.io/bbolt.DB).Update"
+	const viewName = "func:(*go.etcd.io/bbolt.DB).View"
+	isRead := func(name string) bool {
+		return name == "func:(*go.etcd.io/bbolt.Bucket).Get" || name == "func:(*go.etcd.io/bbolt.Cursor).First" ||
+			name == "func:(*go.etcd.io/bbolt.Cursor).Next" || name == "func:(*go.etcd.io/bbolt.Cursor).Seek" || name == "func:(*go.etcd.io/bbolt.Bucket).ForEach"
+	}
+	// write transactions: closure -> the function that starts it
+	txRoot := map[*ssa.Function]*ssa.Function{}
+	for _, fn := range prodFuncs(w) {
+		if w.FnRel(fn) != "peersync" {
+			continue
+		}
+		for _, ci := range an.Calls(fn) {
+			if w.Info(ci).Name != updName {
+				continue
+			}
+			for _, a := range ci.Common().Args {
+				if mc, ok := a.(*ssa.MakeClosure); ok {
+					if f, ok := mc.Fn.(*ssa.Function); ok {
+						txRoot[f] = fn
+					}
+				}
+			}
+		}
+	}
+	// functions that only run inside a write transaction, with the transactions they run in
+	inTx := map[*ssa.Function]map[*ssa.Function]bool{}
+	var txOf func(fn *ssa.Function, depth int) map[*ssa.Function]bool
+	txOf = func(fn *ssa.Function, depth int) map[*ssa.Function]bool {
+		if m, ok := inTx[fn]; ok {
+			return m
+		}
+		if _, ok := txRoot[fn]; ok {
+			inTx[fn] = map[*ssa.Function]bool{fn: true}
+			return inTx[fn]
+		}
+		inTx[fn] = nil
+		if depth > 4 {
+			return nil
+		}
+		callers := e.prodCallers(fn)
+		if len(callers) == 0 {
+			return nil
+		}
+		out := map[*ssa.Function]bool{}
+		for _, cs := range callers {
+			m := txOf(cs.Parent(), depth+1)
+			if m == nil {
+				return nil
+			}
+			for k := range m {
+				out[k] = true
+			}
+		}
+		inTx[fn] = out
+		return out
+	}
+
+	prims := map[*ssa.Function]bool{}
+	nLocal, nPut := 0, 0
+	for _, fn := range prodFuncs(w) {
+		if w.FnRel(fn) != "peersync" {
+			continue
+		}
+		for _, ci := range an.Calls(fn) {
+			if w.Info(ci).Name != "func:(*go.etcd.io/bbolt.Bucket).Put" || len(ci.Common().Args) != 3 {
+				continue
+			}
+			nPut++
+			cons := w.FuncName(fn) + " Bucket.Put"
+			pos := w.Pos(ci.Pos())
+			txs := txOf(fn, 0)
+			if len(txs) == 0 {
+				c.Unknown("C28.R7", cons, pos, "cannot tell in which write transaction(s) this Put runs")
+				continue
+			}
+			// where do the bytes come from: inside the transaction, or from the function that starts it?
+			vs := w.Sources(ci.Common().Args[2], an.FlowOpts{IntoCallers: true})
+			supplied, local, other := false, false, ""
+			for _, l := range vs.Leaves {
+				var at *ssa.Function
+				switch {
+				case l.Kind == "call" && l.Call != nil:
+					at = l.Call.Parent()
+				case l.Val != nil:
+					if in, ok := l.Val.(ssa.Instruction); ok {
+						at = in.Parent()
+					}
+				}
+				switch {
+				case at == nil:
+					other = l.String()
+				case len(txOf(at, 0)) > 0:
+					local = true
+				default:
+					isStarter := false
+					for t := range txs {
+						if txRoot[t] == at {
+							isStarter = true
+						}
+					}
+					if isStarter {
+						supplied = true
+					} else {
+						other = l.String() + " in " + w.FuncName(at)
+					}
+				}
+			}
+			var starters []*ssa.Function
+			readsInTx, peerParam := true, false
+			for t := range txs {
+				st := txRoot[t]
+				starters = append(starters, st)
+				has := false
+				for _, ef := range w.Summary(t).Effects {
+					if isRead(ef.Name) {
+						has = true
+					}
+				}
+				if !has {
+					readsInTx = false
+				}
+				for _, p := range st.Params {
+					if c28HoldsPeer(p.Type()) {
+						peerParam = true
+					}
+				}
+			}
+			switch {
+			case other != "" || (supplied && local) || (!supplied && !local):
+				c.Unknown("C28.R7", cons, pos, "cannot trace the bytes written: "+strings.Join(vs.Names(), ", ")+" "+other)
+			case local && readsInTx && !peerParam:
+				nLocal++
+				c.OK("C28.R7", cons, pos, "read-modify-write inside one write transaction (the transaction reads the bucket, the record is not supplied by a caller): nothing can interleave")
+			case local:
+				c.Unknown("C28.R7", cons, pos, "the record is encoded inside the transaction, but the transaction does not read the bucket or its starting function receives a Peer from its caller: cannot decide what is written back")
+			case supplied && !readsInTx:
+				for _, st := range starters {
+					prims[st] = true
+				}
+				c.Note("C28.R7", cons, pos, "write-back primitive: the bytes are supplied by the function that starts the transaction; its call sites are judged below")
+			default:
+				c.Unknown("C28.R7", cons, pos, "the transaction reads the bucket but writes bytes supplied from outside it: cannot decide what is written back")
+			}
+		}
+	}
+	c.AtLeast("C28.R7", "Bucket.Put sites of peer records in peersync", nPut, 2)
+	c.AtLeast("C28.R7", "single-transaction read-modify-write sites", nLocal, 1)
+
+	// loads: in-module calls that reach a read transaction and yield Peers
+	isLoad := func(call *ssa.Call) bool {
+		f := w.Info(call).Static
+		if f == nil || !w.InModule(f) || f.Blocks == nil {
+			return false
+		}
+		res := call.Call.Signature().Results()
+		if res.Len() == 0 || !c28HoldsPeer(res.At(0).Type()) {
+			return false
+		}
+		s := w.Summary(f)
+		return s.HasEffect(viewName) || s.HasEffect("func:(*go.etcd.io/bbolt.Bucket).Get")
+	}
+	// call sites of the write-back primitives (and of wrappers that pass a Peer parameter on)
+	type wsite struct {
+		site  ssa.CallInstruction
+		arg   ssa.Value
+		depth int
+	}
+	var work []wsite
+	var pfs []*ssa.Function
+	for f := range prims {
+		pfs = append(pfs, f)
+	}
+	sort.Slice(pfs, func(i, j int) bool { return w.FuncName(pfs[i]) < w.FuncName(pfs[j]) })
+	peerArg := func(cs ssa.CallInstruction, callee *ssa.Function, paramIdx int) ssa.Value {
+		args := cs.Common().Args
+		if cs.Common().IsInvoke() {
+			paramIdx--
+		}
+		if paramIdx >= 0 && paramIdx < len(args) {
+			return args[paramIdx]
+		}
+		return nil
+	}
+	for _, f := range pfs {
+		hasPeer := false
+		for _, p := range f.Params {
+			if c28HoldsPeer(p.Type()) {
+				hasPeer = true
+			}
+		}
+		if !hasPeer {
+			c.Unknown("C28.R7", w.FuncName(f)+" write-back", w.Pos(f.Pos()), "the function encodes a record outside its write transaction but receives no Peer from its caller: the rule cannot identify the load the record comes from (a read in one transaction and the write in another can interleave with other writers)")
+			continue
+		}
+		for i, p := range f.Params {
+			if !c28HoldsPeer(p.Type()) {
+				continue
+			}
+			for _, cs := range e.prodCallers(f) {
+				if a := peerArg(cs, f, i); a != nil {
+					work = append(work, wsite{cs, a, 0})
+				}
+			}
+		}
+	}
+	nSites := 0
+	seenSite := map[ssa.CallInstruction]bool{}
+	for len(work) > 0 {
+		ws := work[0]
+		work = work[1:]
+		if seenSite[ws.site] {
+			continue
+		}
+		seenSite[ws.site] = true
+		g := ws.site.Parent()
+		cons := w.FuncName(g) + " writes back via " + strings.TrimPrefix(w.Info(ws.site).Name, "func:")
+		pos := w.Pos(ws.site.Pos())
+		ss := w.Sources(ws.arg, an.FlowOpts{})
+		var loads []*ssa.Call
+		fresh, unknown := false, ""
+		for _, l := range ss.Leaves {
+			switch {
+			case l.Kind == "call" && l.Call != nil && l.Call.Parent() == g && isLoad(l.Call):
+				loads = append(loads, l.Call)
+			case l.Kind == "call" && l.Call != nil && c28HoldsPeer(l.Call.Call.Signature().Results().At(0).Type()):
+				// a constructor / converter that does not touch the store
+				if f := w.Info(l.Call).Static; f != nil && w.InModule(f) && !w.Summary(f).HasEffect(viewName) {
+					fresh = true
+				} else {
+					unknown = l.String()
+				}
+			case l.Kind == "param":
+				p, ok := l.Val.(*ssa.Parameter)
+				if !ok || p.Parent() != g || ws.depth >= 2 {
+					unknown = l.String()
+					break
+				}
+				// the record is handed in: judge the callers of g instead
+				climbed := false
+				for _, cs := range e.prodCallers(g) {
+					if a := peerArg(cs, g, l.Idx); a != nil {
+						work = append(work, wsite{cs, a, ws.depth + 1})
+						climbed = true
+					}
+				}
+				if !climbed {
+					unknown = l.String() + " (no production caller)"
+				}
+			case l.Kind == "zero":
+			default:
+				unknown = l.String()
+			}
+		}
+		if len(loads) == 0 {
+			switch {
+			case unknown != "":
+				c.Unknown("C28.R7", cons, pos, "cannot trace the record that is written to a store load: "+unknown)
+			case fresh:
+				nSites++
+				c.OK("C28.R7", cons, pos, "writes a freshly built record, not a copy loaded earlier")
+			}
+			continue
+		}
+		nSites++
+		bad := ""
+		for _, ld := range loads {
+			for _, ci := range an.Calls(g) {
+				if ci == ssa.CallInstruction(ld) || ci == ws.site {
+					continue
+				}
+				b := e.blocking(ci)
+				if b == "" {
+					continue
+				}
+				if c28After(ld, ci) && c28After(ci, ws.site) {
+					bad = fmt.Sprintf("the record loaded by %s at %s is written back at %s after the blocking call %s at %s: a capability another goroutine (the message handler) stored for this peer in between is replaced by the stale copy, so the stored capability is not that of the peer's most recent poll", strings.TrimPrefix(w.Info(ld).Name, "func:"), w.Pos(ld.Pos()), pos, b, w.Pos(ci.Pos()))
+				}
+			}
+		}
+		switch {
+		case bad != "":
+			c.Bad("C28.R7", cons, pos, bad)
+		case unknown != "":
+			c.Unknown("C28.R7", cons, pos, "part of the record that is written cannot be traced: "+unknown)
+		default:
+			var ls []string
+			for _, ld := range loads {
+				ls = append(ls, strings.TrimPrefix(w.Info(ld).Name, "func:"))
+			}
+			c.OK("C28.R7", cons, pos, "no blocking outside call between the load ("+strings.Join(ls, ", ")+") and the write-back")
+		}
+	}
+	if len(pfs) > 0 {
+		c.AtLeast("C28.R7", "write-back sites of loaded peer records", nSites, 1)
 	}
 }
